@@ -1759,3 +1759,58 @@ def explicit_undefined_before_jumps(x):
     if y[0] == 'if' and len(y) == 4:
         return ('if', y[1], fix_branch(y[2]), fix_branch(y[3]))
     return y
+
+
+def hoist_fdecls_as_var(prog):
+    """Twin program: every script-level function declaration `function f(..){..}` becomes `var f = function (..){..};`
+    placed at the very top (in order, so a later duplicate still wins).  Same behaviour by hoisting; but the function
+    objects are now created by ordinary statements of the code."""
+    body = prog['body']
+    fds = [st for st in body if st[0] == 'fdecl']
+    rest = [st for st in body if st[0] != 'fdecl']
+    out = dict(prog)
+    out['body'] = [('decl', 'var', [('d', st[1], ('func', dict(st[2])))]) for st in fds] + rest
+    return out
+
+
+def toplevel_lexicals_used_by_fdecls(prog):
+    """Names declared by let/const at script level that are referenced (at any depth) inside a script-level
+    function declaration."""
+    body = prog['body']
+    lex = set()
+    for st in body:
+        if st[0] == 'decl' and st[1] in ('let', 'const'):
+            lex.update(d[1] for d in st[2])
+    used = set()
+
+    def walk(x):
+        if isinstance(x, tuple):
+            if x and x[0] in ('var', 'evalvar') and isinstance(x[1], str): used.add(x[1])
+            if x and x[0] == 'assign' and isinstance(x[1], str): used.add(x[1])
+            if x and x[0] == 'assignop' and isinstance(x[2], str): used.add(x[2])
+            if x and x[0] == 'update' and isinstance(x[3], str): used.add(x[3])
+            for z in x: walk(z)
+        elif isinstance(x, list):
+            for z in x: walk(z)
+        elif isinstance(x, dict):
+            for z in x.values(): walk(z)
+    for st in body:
+        if st[0] == 'fdecl':
+            walk(st[2])
+    return lex & used
+
+
+def log_all_catches(x):
+    """Diagnostic twin (its outcome is never compared): every catch clause binds its exception and logs it first,
+    so that an exception swallowed by `catch {}` becomes visible in the log."""
+    if isinstance(x, list):
+        return [log_all_catches(y) for y in x]
+    if isinstance(x, dict):
+        return {k: log_all_catches(v) if k in ('body', 'params') else v for k, v in x.items()}
+    if not isinstance(x, tuple) or not x:
+        return x
+    y = tuple(log_all_catches(z) if isinstance(z, (tuple, list, dict)) else z for z in x)
+    if y[0] == 'try' and len(y) == 7 and y[2]:
+        prm = y[3] or 'caught_ex'
+        return ('try', y[1], True, prm, [('expr', ('log', ('var', prm)))] + list(y[4]), y[5], y[6])
+    return y
